@@ -767,7 +767,7 @@ func (c *Ctx) panicSites(fd *ast.FuncDecl) []panicSite {
 						}
 					}
 				}
-				if !c.indexGuarded(fd, x) && !c.lastOfNonEmpty(fd, x.X, x.Index) {
+				if !c.indexGuarded(fd, x) && !c.lastOfNonEmpty(fd, x.X, x.Index) && !c.simIndexSafe(fd, x) {
 					out = append(out, panicSite{fn, "index", exprString(x), x.Pos()})
 				}
 			}
@@ -1516,6 +1516,12 @@ func (c *Ctx) lastOfNonEmpty(fd *ast.FuncDecl, x, idx ast.Expr) bool {
 				if se, ok := unparen(call.Fun).(*ast.SelectorExpr); ok {
 					arg = se.X
 				}
+			} else if sig := self.Type().(*types.Signature); sig.Variadic() && pi == sig.Params().Len()-1 && call.Ellipsis == token.NoPos {
+				// variadic parameter: the arguments given in place are its elements
+				if len(call.Args) <= pi {
+					good = false
+				}
+				return true
 			} else if pi < len(call.Args) {
 				arg = call.Args[pi]
 			}
